@@ -15,6 +15,9 @@ import (
 	"testing"
 )
 
+// the stored format's checksum (CRC-32C) with the harness's own table, not the implementation's
+var vCodecCastagnoli = crc32.MakeTable(crc32.Castagnoli)
+
 func vCodecDecImpl(b []byte) (out string) {
 	defer func() {
 		if r := recover(); r != nil {
@@ -63,7 +66,7 @@ func TestVerifC01Codec(t *testing.T) {
 					bad = "value"
 				case vShowHdrs(sm.Headers()) != vShowHdrs(m.Headers):
 					bad = "headers"
-				case crc32.Checksum(b[4:], crc32cTable) != sm.Crc():
+				case crc32.Checksum(b[4:], vCodecCastagnoli) != sm.Crc():
 					bad = "crc"
 				}
 				if bad != "" {
